@@ -114,7 +114,7 @@ class Verdict:
         replay_paths = []
         shown_kinds = {}
         for rec in self.unlisted:
-            kind = (rec.get("kind"), rec.get("rule"))
+            kind = (rec.get("kind"), (rec.get("detail") or {}).get("attributed_rule") or rec.get("rule"))
             shown_kinds[kind] = shown_kinds.get(kind, 0) + 1
             if shown_kinds[kind] > 2 or len(replay_paths) >= 150:
                 continue
@@ -140,7 +140,7 @@ class Verdict:
         if self.unlisted:
             kinds = {}
             for rec in self.unlisted:
-                k = f"{rec.get('kind')}/{rec.get('rule')}"
+                k = f"{rec.get('kind')}/{(rec.get('detail') or {}).get('attributed_rule') or rec.get('rule')}"
                 kinds[k] = kinds.get(k, 0) + 1
             print("  unlisted by kind/rule: " + ", ".join(f"{k}={n}" for k, n in sorted(kinds.items(), key=lambda t: -t[1])[:30]))
             print(f"RESULT property={self.prop} violated unlisted={len(self.unlisted)} "
